@@ -29,6 +29,12 @@ use serde_json::{json, Value};
 
 pub const VERIF_ROOT: &str = "/verif";
 
+/// Root for evidence / replays / known findings. Overridable for mutation sandboxes
+/// (`tools/mutrun.sh`), which must not overwrite the real evidence.
+pub fn verif_root() -> std::path::PathBuf {
+    std::env::var("VERIF_ROOT_OVERRIDE").map(std::path::PathBuf::from).unwrap_or_else(|_| std::path::PathBuf::from(VERIF_ROOT))
+}
+
 #[derive(Clone, Copy, Debug, PartialEq, Eq)]
 pub enum Tier {
     Quick,
@@ -673,7 +679,7 @@ impl Ctx {
         }
         // --- replay artefacts for new violations (one per finding key, first case wins)
         let mut reported = BTreeSet::new();
-        let replay_dir = Path::new(VERIF_ROOT).join("replays");
+        let replay_dir = verif_root().join("replays");
         let _ = std::fs::create_dir_all(&replay_dir);
         let mut violation_lines = vec![];
         for (group, key, v) in &unknown {
@@ -740,7 +746,7 @@ impl Ctx {
             "violations": unknown.len(),
             "machinery_errors": self.machinery_errors,
         });
-        let ev_dir = Path::new(VERIF_ROOT).join("evidence");
+        let ev_dir = verif_root().join("evidence");
         let _ = std::fs::create_dir_all(&ev_dir);
         let ev_path = ev_dir.join(format!("{}.json", self.prop));
         if let Err(e) = std::fs::write(&ev_path, serde_json::to_string_pretty(&ev).unwrap()) {
